@@ -24,6 +24,7 @@ import (
 	"strconv"
 	"sync/atomic"
 	"testing"
+	"time"
 
 	"github.com/lni/dragonboat/v4/config"
 	"github.com/lni/dragonboat/v4/internal/fileutil"
@@ -411,6 +412,8 @@ func (s *lsSim) save(crashAt int64) {
 				if os.Getenv("VERIF_DEBUG") != "" {
 					fmt.Println("SAVE PANIC:", r)
 				}
+				// Tan syncs in goroutines of its own: let them finish before the store is closed
+				time.Sleep(30 * time.Millisecond)
 			}
 		}()
 		// the engine's step worker w saves the replicas of partition w-1 with its own context
@@ -745,6 +748,9 @@ func TestVerifLssim(t *testing.T) {
 						fmt.Printf("PANIC %v\n%s\n", r, debug.Stack())
 					}
 					s.emit(jLsEv{Op: "Panic", Msg: fmt.Sprint(r)})
+					w.Flush()
+					// goroutines of the abandoned store (Tan syncs in goroutines of its own) may still run
+					time.Sleep(50 * time.Millisecond)
 				}
 			}()
 			if mode == "kverr" {
